@@ -1,194 +1,6 @@
-(* GENERATED by harness/gen_fatskel.py from nobodd/fs.py and nobodd/path.py -- do not edit. *)
-From Coq Require Import List NArith String.
-From NV Require Import Fat.SkelDefs.
-Import ListNotations.
-Open Scope nat_scope.
-
-Definition fn_names : list string := ["FatFileSystem.__init__"%string; "FatFileSystem.__repr__"%string; "FatFileSystem.__enter__"%string; "FatFileSystem.__exit__"%string; "FatFileSystem.close"%string; "FatFileSystem.lock"%string; "FatFileSystem.readonly"%string; "FatFileSystem.dirty"%string; "FatFileSystem.dirty.setter"%string; "FatFileSystem.damaged"%string; "FatFileSystem.damaged.setter"%string; "FatFileSystem.mark_dirty"%string; "FatFileSystem.open_dir"%string; "FatFileSystem.open_file"%string; "FatFileSystem.open_entry"%string; "FatFileSystem.fat"%string; "FatFileSystem.clusters"%string; "FatFileSystem.fat_type"%string; "FatFileSystem.label"%string; "FatFileSystem.sfn_encoding"%string; "FatFileSystem.tz"%string; "FatFileSystem.atime"%string; "FatFileSystem.root"%string; "fat_type"%string; "fat_type_from_count"%string; "FatTable.__enter__"%string; "FatTable.__exit__"%string; "FatTable.close"%string; "FatTable.__len__"%string; "FatTable.__delitem__"%string; "FatTable.readonly"%string; "FatTable.get_all"%string; "FatTable.insert"%string; "FatTable.mark_free"%string; "FatTable.mark_end"%string; "FatTable.chain"%string; "FatTable._scan_end"%string; "FatTable.free"%string; "Fat12Table.__init__"%string; "Fat12Table.__len__"%string; "Fat12Table.get_all"%string; "Fat12Table.__getitem__"%string; "Fat12Table.__setitem__"%string; "Fat16Table.__init__"%string; "Fat16Table.get_all"%string; "Fat16Table.__getitem__"%string; "Fat16Table.__setitem__"%string; "Fat32Table.__init__"%string; "Fat32Table.close"%string; "Fat32Table._alloc"%string; "Fat32Table._dealloc"%string; "Fat32Table.free"%string; "Fat32Table.get_all"%string; "Fat32Table.__getitem__"%string; "Fat32Table.__setitem__"%string; "FatClusters.__init__"%string; "FatClusters.__enter__"%string; "FatClusters.__exit__"%string; "FatClusters.close"%string; "FatClusters.size"%string; "FatClusters.readonly"%string; "FatClusters.__len__"%string; "FatClusters.__getitem__"%string; "FatClusters.__setitem__"%string; "FatClusters.__delitem__"%string; "FatClusters.insert"%string; "FatDirectory._get_cluster"%string; "FatDirectory._iter_entries"%string; "FatDirectory._update_entry"%string; "FatDirectory._split_entries"%string; "FatDirectory._join_lfn_entries"%string; "FatDirectory._prefix_entries"%string; "FatDirectory._get_names"%string; "FatDirectory._get_names.make_sfn"%string; "FatDirectory._get_names.lower"%string; "FatDirectory._get_unique_sfn"%string; "FatDirectory._group_entries"%string; "FatDirectory._clean_entries"%string; "FatDirectory.__len__"%string; "FatDirectory.__iter__"%string; "FatDirectory.items"%string; "FatDirectory.values"%string; "FatDirectory.__contains__"%string; "FatDirectory.__getitem__"%string; "FatDirectory.__setitem__"%string; "FatDirectory.__delitem__"%string; "FatRoot.__init__"%string; "FatRoot._get_cluster"%string; "FatRoot._update_entry"%string; "FatRoot._iter_entries"%string; "FatSubDirectory.__init__"%string; "FatSubDirectory._get_cluster"%string; "FatSubDirectory._update_entry"%string; "FatSubDirectory._iter_entries"%string; "FatFile.__init__"%string; "FatFile.from_cluster"%string; "FatFile.from_entry"%string; "FatFile._get_map"%string; "FatFile._get_fs"%string; "FatFile._get_size"%string; "FatFile._get_key"%string; "FatFile._set_size"%string; "FatFile._set_atime"%string; "FatFile._set_mtime"%string; "FatFile._check_closed"%string; "FatFile.close"%string; "FatFile.readable"%string; "FatFile.seekable"%string; "FatFile.writable"%string; "FatFile.readall"%string; "FatFile.readinto"%string; "FatFile.write"%string; "FatFile._write1"%string; "FatFile.seek"%string; "FatFile.truncate"%string; "FatPath.__init__"%string; "FatPath.__repr__"%string; "FatPath.__str__"%string; "FatPath._get_fs"%string; "FatPath._from_index"%string; "FatPath._from_entry"%string; "FatPath._resolve"%string; "FatPath._refresh"%string; "FatPath._must_exist"%string; "FatPath._must_not_exist"%string; "FatPath._must_be_dir"%string; "FatPath._must_not_be_dir"%string; "FatPath.open"%string; "FatPath.unlink"%string; "FatPath.rename"%string; "FatPath.mkdir"%string; "FatPath.rmdir"%string; "FatPath.resolve"%string; "FatPath.iterdir"%string; "FatPath.match"%string; "FatPath._search"%string; "FatPath._search.recursive"%string; "FatPath._search.wildcard"%string; "FatPath._search.precise"%string; "FatPath.glob"%string; "FatPath.rglob"%string; "FatPath.stat"%string; "FatPath.fs"%string; "FatPath.root"%string; "FatPath.anchor"%string; "FatPath.name"%string; "FatPath.suffix"%string; "FatPath.suffixes"%string; "FatPath.stem"%string; "FatPath.parts"%string; "FatPath.parent"%string; "FatPath.parents"%string; "FatPath.read_text"%string; "FatPath.write_text"%string; "FatPath.read_bytes"%string; "FatPath.write_bytes"%string; "FatPath.touch"%string; "FatPath.exists"%string; "FatPath.is_dir"%string; "FatPath.is_file"%string; "FatPath.is_mount"%string; "FatPath.is_absolute"%string; "FatPath.is_relative_to"%string; "FatPath.relative_to"%string; "FatPath.joinpath"%string; "FatPath.with_name"%string; "FatPath.with_stem"%string; "FatPath.with_suffix"%string; "FatPath.__eq__"%string; "FatPath.__le__"%string; "FatPath.__ne__"%string; "FatPath.__lt__"%string; "FatPath.__gt__"%string; "FatPath.__ge__"%string; "get_cluster"%string; "get_parts"%string].
-Definition skeleton : list (list stmt) := [
-  (*   0 FatFileSystem.__init__ *) [SCall [17; 23]; SCall [55]; SCall [4; 27; 48; 58; 105]];
-  (*   1 FatFileSystem.__repr__ *) [];
-  (*   2 FatFileSystem.__enter__ *) [];
-  (*   3 FatFileSystem.__exit__ *) [SCall [4; 27; 48; 58; 105]];
-  (*   4 FatFileSystem.close *) [SWith LW [SCall [4; 27; 48; 58; 105]; SCall [4; 27; 48; 58; 105]]];
-  (*   5 FatFileSystem.lock *) [];
-  (*   6 FatFileSystem.readonly *) [];
-  (*   7 FatFileSystem.dirty *) [SWith LR []];
-  (*   8 FatFileSystem.dirty.setter *) [SWith LW [SCall [42; 46; 54]; SCall [42; 46; 54]]];
-  (*   9 FatFileSystem.damaged *) [SWith LR []];
-  (*  10 FatFileSystem.damaged.setter *) [SWith LW [SCall [42; 46; 54]; SCall [42; 46; 54]]];
-  (*  11 FatFileSystem.mark_dirty *) [SWith LW [SCall [8]; SYield; SCall [8]]];
-  (*  12 FatFileSystem.open_dir *) [SCall [90]; SCall [86]; SCall [86]; SCall [90]];
-  (*  13 FatFileSystem.open_file *) [SCall [95]];
-  (*  14 FatFileSystem.open_entry *) [SCall [96]];
-  (*  15 FatFileSystem.fat *) [];
-  (*  16 FatFileSystem.clusters *) [];
-  (*  17 FatFileSystem.fat_type *) [];
-  (*  18 FatFileSystem.label *) [];
-  (*  19 FatFileSystem.sfn_encoding *) [];
-  (*  20 FatFileSystem.tz *) [];
-  (*  21 FatFileSystem.atime *) [];
-  (*  22 FatFileSystem.root *) [SCall [119]; SCall [12]];
-  (*  23 fat_type *) [SCall [24]; SCall [24]];
-  (*  24 fat_type_from_count *) [];
-  (*  25 FatTable.__enter__ *) [];
-  (*  26 FatTable.__exit__ *) [SCall [4; 27; 48; 58; 105]];
-  (*  27 FatTable.close *) [];
-  (*  28 FatTable.__len__ *) [];
-  (*  29 FatTable.__delitem__ *) [];
-  (*  30 FatTable.readonly *) [];
-  (*  31 FatTable.get_all *) [];
-  (*  32 FatTable.insert *) [];
-  (*  33 FatTable.mark_free *) [];
-  (*  34 FatTable.mark_end *) [];
-  (*  35 FatTable.chain *) [SWith LR [SYield]];
-  (*  36 FatTable._scan_end *) [];
-  (*  37 FatTable.free *) [SWith LR [SCall [36]; SYield]];
-  (*  38 Fat12Table.__init__ *) [];
-  (*  39 Fat12Table.__len__ *) [SCall [28; 39; 61; 78]];
-  (*  40 Fat12Table.get_all *) [SWith LR []];
-  (*  41 Fat12Table.__getitem__ *) [SWith LR []];
-  (*  42 Fat12Table.__setitem__ *) [SWith LW [SPoke 0]];
-  (*  43 Fat16Table.__init__ *) [];
-  (*  44 Fat16Table.get_all *) [];
-  (*  45 Fat16Table.__getitem__ *) [SWith LR []];
-  (*  46 Fat16Table.__setitem__ *) [SWith LW [SPoke 2]];
-  (*  47 Fat32Table.__init__ *) [];
-  (*  48 Fat32Table.close *) [SCall [4; 27; 48; 58; 105]];
-  (*  49 Fat32Table._alloc *) [SPoke 1];
-  (*  50 Fat32Table._dealloc *) [SPoke 1];
-  (*  51 Fat32Table.free *) [SWith LR [SCall [36]; SCall [36]; SYield]];
-  (*  52 Fat32Table.get_all *) [SWith LR []];
-  (*  53 Fat32Table.__getitem__ *) [SWith LR []];
-  (*  54 Fat32Table.__setitem__ *) [SWith LW [SCall [49]; SCall [50]; SPoke 2]];
-  (*  55 FatClusters.__init__ *) [];
-  (*  56 FatClusters.__enter__ *) [];
-  (*  57 FatClusters.__exit__ *) [SCall [4; 27; 48; 58; 105]];
-  (*  58 FatClusters.close *) [];
-  (*  59 FatClusters.size *) [];
-  (*  60 FatClusters.readonly *) [];
-  (*  61 FatClusters.__len__ *) [];
-  (*  62 FatClusters.__getitem__ *) [SWith LR []];
-  (*  63 FatClusters.__setitem__ *) [SWith LW [SPoke 3]];
-  (*  64 FatClusters.__delitem__ *) [];
-  (*  65 FatClusters.insert *) [];
-  (*  66 FatDirectory._get_cluster *) [];
-  (*  67 FatDirectory._iter_entries *) [];
-  (*  68 FatDirectory._update_entry *) [];
-  (*  69 FatDirectory._split_entries *) [SCall [70]; SCall [74]; SCall [74]];
-  (*  70 FatDirectory._join_lfn_entries *) [SCall [70]; SCall [70]; SCall [70]; SCall [70]; SCall [70]; SCall [70]; SCall [70]];
-  (*  71 FatDirectory._prefix_entries *) [SCall [72]];
-  (*  72 FatDirectory._get_names *) [SCall [73]; SCall [73]; SCall [74]; SCall [73]; SCall [74]; SCall [73]; SCall [74]; SCall [74]; SCall [75]];
-  (*  73 FatDirectory._get_names.make_sfn *) [];
-  (*  74 FatDirectory._get_names.lower *) [SCall [74]];
-  (*  75 FatDirectory._get_unique_sfn *) [SCall [76]; SCall [69]];
-  (*  76 FatDirectory._group_entries *) [SWith LR [SCall [67; 89; 93]; SYield]];
-  (*  77 FatDirectory._clean_entries *) [SWith LW [SCall [67; 89; 93]; SCall [68; 88; 92]; SCall [68; 88; 92]]];
-  (*  78 FatDirectory.__len__ *) [];
-  (*  79 FatDirectory.__iter__ *) [SCall [76]; SCall [69]; SYield];
-  (*  80 FatDirectory.items *) [SCall [76]; SCall [69]; SYield];
-  (*  81 FatDirectory.values *) [SCall [76]; SCall [69]; SYield];
-  (*  82 FatDirectory.__contains__ *) [SCall [76]; SCall [69]];
-  (*  83 FatDirectory.__getitem__ *) [SCall [76]; SCall [69]];
-  (*  84 FatDirectory.__setitem__ *) [SWith LW [SCall [76]; SCall [69]; SCall [68; 88; 92]; SCall [71]; SCall [68; 88; 92]; SCall [77]]];
-  (*  85 FatDirectory.__delitem__ *) [SWith LW [SCall [76]; SCall [69]; SCall [68; 88; 92]; SCall [68; 88; 92]]];
-  (*  86 FatRoot.__init__ *) [];
-  (*  87 FatRoot._get_cluster *) [];
-  (*  88 FatRoot._update_entry *) [SPoke 1];
-  (*  89 FatRoot._iter_entries *) [SYield];
-  (*  90 FatSubDirectory.__init__ *) [SCall [13]];
-  (*  91 FatSubDirectory._get_cluster *) [];
-  (*  92 FatSubDirectory._update_entry *) [SCall [113]; SCall [111]; SCall [113]];
-  (*  93 FatSubDirectory._iter_entries *) [SCall [113]; SCall [110]; SYield];
-  (*  94 FatFile.__init__ *) [SCall [97]; SGuard 6 [SCall [114]]; SGuard 7 [SCall [113]]];
-  (*  95 FatFile.from_cluster *) [SCall [94]];
-  (*  96 FatFile.from_entry *) [SCall [94]; SCall [174]];
-  (*  97 FatFile._get_map *) [SCall [35]];
-  (*  98 FatFile._get_fs *) [];
-  (*  99 FatFile._get_size *) [SCall [98; 118]];
-  (* 100 FatFile._get_key *) [SCall [98; 118]];
-  (* 101 FatFile._set_size *) [SCall [84]; SCall [100]];
-  (* 102 FatFile._set_atime *) [SCall [98; 118]; SCall [84]; SCall [100]];
-  (* 103 FatFile._set_mtime *) [SCall [98; 118]; SCall [84]; SCall [100]];
-  (* 104 FatFile._check_closed *) [];
-  (* 105 FatFile.close *) [SCall [108]; SGuard 1 [SCall [98; 118]; SWith LD [SCall [33]; SCall [101]]]; SCall [4; 27; 48; 58; 105]];
-  (* 106 FatFile.readable *) [];
-  (* 107 FatFile.seekable *) [];
-  (* 108 FatFile.writable *) [];
-  (* 109 FatFile.readall *) [SCall [104]; SCall [106]; SCall [99]; SCall [98; 118]; SWith LR [SCall [110]]];
-  (* 110 FatFile.readinto *) [SCall [104]; SCall [106]; SCall [98; 118]; SCall [99]; SGuard 0 [SCall [102]]];
-  (* 111 FatFile.write *) [SCall [104]; SCall [108]; SCall [98; 118]; SCall [99]; SCall [114]; SWith LD [SCall [112]; SCall [37; 51]; SCall [34]; SCall [42; 46; 54]; SCall [101]; SCall [103]]];
-  (* 112 FatFile._write1 *) [SCall [104]; SCall [98; 118]; SPoke 4];
-  (* 113 FatFile.seek *) [SCall [104]; SCall [99]];
-  (* 114 FatFile.truncate *) [SCall [104]; SCall [108]; SCall [98; 118]; SCall [99]; SWith LD [SPoke 4; SCall [37; 51]; SCall [34]; SCall [63]; SCall [42; 46; 54]; SCall [34]; SCall [33]; SCall [101]; SCall [103]]];
-  (* 115 FatPath.__init__ *) [SCall [175]];
-  (* 116 FatPath.__repr__ *) [];
-  (* 117 FatPath.__str__ *) [];
-  (* 118 FatPath._get_fs *) [];
-  (* 119 FatPath._from_index *) [SCall [115]];
-  (* 120 FatPath._from_entry *) [SCall [174]; SCall [119]; SCall [12]; SCall [115]];
-  (* 121 FatPath._resolve *) [SCall [98; 118]; SWith LR [SCall [123]; SCall [125]; SCall [120]]];
-  (* 122 FatPath._refresh *) [SCall [121]];
-  (* 123 FatPath._must_exist *) [SCall [157]];
-  (* 124 FatPath._must_not_exist *) [SCall [157]];
-  (* 125 FatPath._must_be_dir *) [SCall [158]];
-  (* 126 FatPath._must_not_be_dir *) [SCall [158]];
-  (* 127 FatPath.open *) [SCall [98; 118]; SGuard 3 [SWith LR [SCall [123]; SCall [124]; SCall [126]; SCall [122]; SCall [14]; SCall [14]]]; SGuard 4 [SWith LD [SCall [123]; SCall [124]; SCall [126]; SGuard 2 [SCall [123]; SCall [125]; SCall [84]]; SCall [122]; SCall [14]; SCall [14]]]; SGuard 5 [SWith LW [SCall [123]; SCall [124]; SCall [126]; SCall [122]; SCall [14]; SCall [14]]]; SCall [106]; SCall [108]];
-  (* 128 FatPath.unlink *) [SCall [98; 118]; SWith LD [SCall [123]; SCall [126]; SCall [122]; SCall [85]; SCall [35]; SCall [174]; SCall [33]]];
-  (* 129 FatPath.rename *) [SCall [98; 118]; SCall [115]; SCall [98; 118]; SWith LD [SCall [123]; SCall [158]; SCall [74]; SCall [132]; SCall [74]; SCall [132]; SCall [132]; SCall [121]; SCall [122]; SCall [157]; SCall [158]; SCall [132]; SCall [121]; SCall [126]; SCall [122]; SCall [126]; SCall [174]; SCall [156]; SCall [84]; SCall [85]; SCall [35]; SCall [33]; SCall [132]; SCall [121]; SCall [174]; SCall [12]; SCall [174]; SCall [84]]];
-  (* 130 FatPath.mkdir *) [SCall [98; 118]; SWith LD [SCall [124]; SCall [158]; SCall [123]; SCall [130]; SCall [125]; SCall [37; 51]; SCall [34]; SCall [63]; SCall [84]; SCall [12]; SCall [84]; SCall [84]; SCall [84]]];
-  (* 131 FatPath.rmdir *) [SCall [98; 118]; SWith LD [SCall [123]; SCall [125]; SCall [174]; SCall [133]; SCall [132]; SCall [121]; SCall [85]; SCall [35]; SCall [33]]];
-  (* 132 FatPath.resolve *) [SCall [98; 118]; SCall [161]; SCall [115]; SCall [123]];
-  (* 133 FatPath.iterdir *) [SCall [98; 118]; SWith LR [SCall [123]; SCall [125]; SCall [80]; SYield; SCall [120]]];
-  (* 134 FatPath.match *) [SCall [175]; SCall [74]; SCall [74]];
-  (* 135 FatPath._search *) [SYield; SCall [158]; SCall [136]; SYield; SYield; SCall [137]; SYield; SCall [138]];
-  (* 136 FatPath._search.recursive *) [SYield; SCall [135]; SCall [133]; SCall [158]; SYield; SCall [136]];
-  (* 137 FatPath._search.wildcard *) [SCall [133]; SCall [134]; SYield; SCall [135]];
-  (* 138 FatPath._search.precise *) [SCall [74]; SCall [157]; SYield; SCall [135]];
-  (* 139 FatPath.glob *) [SCall [175]; SCall [98; 118]; SWith LR [SCall [123]; SYield; SCall [135]]];
-  (* 140 FatPath.rglob *) [SCall [175]; SCall [98; 118]; SWith LR [SCall [123]; SYield; SCall [135]]];
-  (* 141 FatPath.stat *) [SCall [98; 118]; SCall [123]; SCall [122]; SCall [174]];
-  (* 142 FatPath.fs *) [SCall [98; 118]];
-  (* 143 FatPath.root *) [];
-  (* 144 FatPath.anchor *) [];
-  (* 145 FatPath.name *) [];
-  (* 146 FatPath.suffix *) [];
-  (* 147 FatPath.suffixes *) [];
-  (* 148 FatPath.stem *) [];
-  (* 149 FatPath.parts *) [];
-  (* 150 FatPath.parent *) [SCall [98; 118]];
-  (* 151 FatPath.parents *) [];
-  (* 152 FatPath.read_text *) [SCall [98; 118]; SWith LR [SCall [127]]];
-  (* 153 FatPath.write_text *) [SCall [98; 118]; SWith LD [SCall [127]; SCall [111]]];
-  (* 154 FatPath.read_bytes *) [SCall [98; 118]; SWith LR [SCall [127]]];
-  (* 155 FatPath.write_bytes *) [SCall [98; 118]; SWith LD [SCall [127]; SCall [111]]];
-  (* 156 FatPath.touch *) [SCall [98; 118]; SWith LD [SCall [127]; SCall [103]; SCall [127]]];
-  (* 157 FatPath.exists *) [SCall [121]];
-  (* 158 FatPath.is_dir *) [SCall [121]];
-  (* 159 FatPath.is_file *) [SCall [121]];
-  (* 160 FatPath.is_mount *) [];
-  (* 161 FatPath.is_absolute *) [];
-  (* 162 FatPath.is_relative_to *) [SCall [163]];
-  (* 163 FatPath.relative_to *) [SCall [98; 118]];
-  (* 164 FatPath.joinpath *) [SCall [98; 118]; SCall [175]];
-  (* 165 FatPath.with_name *) [SCall [98; 118]];
-  (* 166 FatPath.with_stem *) [SCall [165]];
-  (* 167 FatPath.with_suffix *) [SCall [165]];
-  (* 168 FatPath.__eq__ *) [SCall [98; 118]; SCall [98; 118]; SCall [74]; SCall [74]];
-  (* 169 FatPath.__le__ *) [SCall [98; 118]; SCall [98; 118]; SCall [74]; SCall [74]];
-  (* 170 FatPath.__ne__ *) [SCall [168]];
-  (* 171 FatPath.__lt__ *) [SCall [169]; SCall [168]];
-  (* 172 FatPath.__gt__ *) [SCall [169]];
-  (* 173 FatPath.__ge__ *) [SCall [168]; SCall [172]];
-  (* 174 get_cluster *) [];
-  (* 175 get_parts *) []
-].
-Definition entries_all : list nat := [4; 5; 6; 7; 9; 11; 12; 13; 14; 15; 16; 17; 18; 19; 20; 21; 22; 23; 24; 27; 28; 29; 30; 31; 32; 33; 34; 35; 37; 39; 40; 41; 42; 44; 45; 46; 48; 51; 52; 53; 54; 58; 59; 60; 61; 62; 63; 64; 65; 78; 79; 80; 81; 82; 83; 84; 85; 95; 96; 105; 106; 107; 108; 109; 110; 111; 113; 114; 127; 128; 129; 130; 131; 132; 133; 134; 139; 140; 141; 142; 143; 144; 145; 146; 147; 148; 149; 150; 151; 152; 153; 154; 155; 156; 157; 158; 159; 160; 161; 162; 163; 164; 165; 166; 167; 174; 175].
-Definition entries_api : list nat := [4; 5; 6; 7; 9; 12; 13; 14; 15; 16; 17; 18; 19; 20; 21; 22; 95; 96; 105; 106; 107; 108; 109; 110; 111; 113; 114; 127; 128; 129; 130; 131; 132; 133; 134; 139; 140; 141; 142; 143; 144; 145; 146; 147; 148; 149; 150; 151; 152; 153; 154; 155; 156; 157; 158; 159; 160; 161; 162; 163; 164; 165; 166; 167].
-Definition flag_functions : list nat := [8; 10; 11].
-Definition entries_serve : list nat := [127; 110; 109; 113; 105; 106; 107; 108; 157; 158; 159; 141; 133; 164; 12; 14; 4].
-Definition needs_w : list bool := [false; false; false; false; false; false; false; false; false; false; false; false; false; false; false; false; false; false; false; false; false; false; false; false; false; false; false; false; false; false; false; false; false; false; false; false; false; false; false; false; false; false; false; false; false; false; false; false; false; true; true; false; false; false; false; false; false; false; false; false; false; false; false; false; false; false; false; false; false; false; false; false; false; false; false; false; false; false; false; false; false; false; false; false; false; false; false; false; true; false; false; false; false; false; false; false; false; false; false; false; false; false; false; false; false; false; false; false; false; false; false; false; true; false; false; false; false; false; false; false; false; false; false; false; false; false; false; false; false; false; false; false; false; false; false; false; false; false; false; false; false; false; false; false; false; false; false; false; false; false; false; false; false; false; false; false; false; false; false; false; false; false; false; false; false; false; false; false; false; false; false; false; false; false; false; false].
-Definition needs_d : list bool := [false; false; false; false; false; false; false; false; true; false; true; true; false; false; false; false; false; false; false; false; false; false; false; false; false; false; false; false; false; false; false; false; false; false; false; false; false; false; false; false; false; false; true; false; false; false; true; false; false; true; true; false; false; false; true; false; false; false; false; false; false; false; false; true; false; false; false; false; false; false; false; false; false; false; false; false; false; true; false; false; false; false; false; false; true; true; false; false; true; false; false; false; false; false; false; false; false; false; false; false; false; true; true; true; false; false; false; false; false; false; false; false; true; false; false; false; false; false; false; false; false; false; false; false; false; false; false; false; false; false; false; false; false; false; false; false; false; false; false; false; false; false; false; false; false; false; false; false; false; false; false; false; false; false; false; false; false; false; false; false; false; false; false; false; false; false; false; false; false; false; false; false; false; false; false; false].
-Definition atime_edges : list (nat * nat) := [(110, 102)].
-Definition may_poke_serving : list bool := [false; false; false; false; false; false; false; false; true; false; true; true; false; false; false; false; false; false; false; false; false; false; false; false; false; false; false; false; false; false; false; false; false; false; false; false; false; false; false; false; false; false; true; false; false; false; true; false; false; true; true; false; false; false; true; false; false; false; false; false; false; false; false; true; false; false; false; false; false; false; false; false; false; false; false; false; false; true; false; false; false; false; false; false; true; true; false; false; true; false; false; false; true; false; false; false; false; false; false; false; false; true; true; true; false; false; false; false; false; false; false; true; true; false; true; false; false; false; false; false; false; false; false; false; false; false; false; false; true; true; true; true; false; false; false; false; false; false; false; false; false; false; false; false; false; false; false; false; false; false; false; false; false; true; false; true; true; false; false; false; false; false; false; false; false; false; false; false; false; false; false; false; false; false; false; false].
-Definition serve_false_guards : list nat := [0; 1; 2; 4; 5; 6; 7].
+(* translation failed: TranslateError: FatPath.open: open(): the choice of lock is not the expected `lock = fs.lock.read if set(mode) & set('r+') == {'r'} else fs.mark_dirty() if set(mode) & set('awx') else fs.lock.write` (every creating mode a/w/x must mark the volume dirty): ["lock = fs.lock.read if set(mode) & set('r+') == {'r'} else fs.mark_dirty() if set(mode) & set('wx') else fs.lock.write"]: with lock:
+    if 'r' in mode:
+        self._must_exist()
+    elif 'x' in mode:
+ *)
+Definition translation_failed : False := I.
